@@ -24,7 +24,7 @@ from .core import Relation, err_kind
 
 PROP = "C20"
 CLAIMED = False
-COQ_MODULES = ["C20_Check", "C20_Proofs", "C20_Proofs2"]
+COQ_MODULES = ["C20_Check", "C20_Proofs", "C20_Proofs2", "C20_Proofs3"]
 PROPERTY_MODULE = "C20_Property"
 ALLOWED_AXIOMS = []
 RULE = (
@@ -37,7 +37,9 @@ TRUSTED = [
     "float32 parsing/summation of the fractions is modelled by exact rationals: generated sums are exactly 1 "
     "or off by >= 1e-3, float32 error for <= 8 fractions is < 4e-7 (property: 'by a clear margin')",
     "Python int()/float()/str.split()/re.search are modelled for ASCII tokens (no inf/nan spellings, no non-ASCII digits)",
-    "glob listing of the map directory and os.path.isdir are inputs of the model",
+    "glob listing of the map directory (file names) and os.path.isdir are inputs of the model",
+    "deliberate refusals are recognised by message keywords (MESSAGES); an unknown wording of a plain Exception / click "
+    "error counts as an explanatory refusal of unknown class (holds accepts it, agree does not)",
     "the simulation itself (after acceptance) is observed, not modelled here (C01/C02 model it)",
 ]
 ASSUMPTIONS = [
@@ -45,6 +47,10 @@ ASSUMPTIONS = [
     "first generation without admixed contribution, at least one generation line, chromosome list sorted, each map "
     "sorted by position and belonging to the chromosome of its file name",
     "reference / sample-info requirements are demanded only without --only_breakpoint (they are not read otherwise)",
+    "cli: the requirements are judged on the arguments validate_params actually received",
+    "undocumented malformations (blank lines, non-numeric fraction / map tokens, empty map file, unreadable reference, "
+    "fractions outside [0,1] summing to 1, admixed contribution in the first generation, unsorted / repeated chromosomes) "
+    "are compared with the model only; the property's list does not name them",
 ]
 
 MESSAGES = [
